@@ -286,12 +286,12 @@ inductive Out (α : Type) where
 def noneResult (hasDefault : Bool) : Out α :=
   if hasDefault then .default else .error .adaptationError
 
-/-- `adapt(adaptee, to_protocol, default)`.  `isNone`: the adaptee is the object
-`None` (then the `result is None` test at :135 fires on the identity branch too). -/
-def adapt (cfg : Cfg) (f : Factory α) (isNone : Bool) (srcType : Nat) (adaptee : α)
+/-- `adapt(adaptee, to_protocol, default)`.  An adaptee whose type provides the protocol
+is returned at once (:131-135) — whatever it is, `None` included; the `result is None`
+test (:141) is about what `_adapt` found. -/
+def adapt (cfg : Cfg) (f : Factory α) (srcType : Nat) (adaptee : α)
     (target : Nat) (hasDefault : Bool) : Out α × List CallRec :=
-  if cfg.provides srcType target then
-    (if isNone then noneResult hasDefault else .self, [])
+  if cfg.provides srcType target then (.self, [])
   else
     match adaptInner cfg f srcType adaptee target with
     | (.found p a, tr) => (.adapted p a, tr)
@@ -299,10 +299,11 @@ def adapt (cfg : Cfg) (f : Factory α) (isNone : Bool) (srcType : Nat) (adaptee 
     | (.notFound, tr) => (noneResult hasDefault, tr)
     | (.outOfFuel, tr) => (.error .other, tr)   -- unreachable: `fuel_suffices`
 
-/-- `self.adapt(obj, protocol, None) is not None`; `.error` = the factory's exception. -/
-def supportsProtocol (cfg : Cfg) (f : Factory α) (isNone : Bool) (srcType : Nat) (adaptee : α)
+/-- `self.adapt(obj, protocol, _MISSING) is not _MISSING` (:192; the default is a private
+sentinel); `.error` = the factory's exception. -/
+def supportsProtocol (cfg : Cfg) (f : Factory α) (srcType : Nat) (adaptee : α)
     (target : Nat) : Except Exc Bool × List CallRec :=
-  match adapt cfg f isNone srcType adaptee target true with
+  match adapt cfg f srcType adaptee target true with
   | (.self, tr) => (.ok true, tr)
   | (.adapted _ _, tr) => (.ok true, tr)
   | (.default, tr) => (.ok false, tr)
@@ -338,7 +339,8 @@ def validateAdapt (mode : Nat) (allowNone : Bool) (valueIsNone : Bool) (isInst :
 (trait_types.py 3667-3683) installs when `adapt == 0`: `(instance, None, klass)` with
 `allow_none`, `(instance, klass)` without. -/
 def validateInstance (allowNone : Bool) (valueIsNone : Bool) (isInst : Bool) : VOut α :=
-  if (allowNone && valueIsNone) || isInst then .value else .error .traitError
+  -- `None` is valid exactly when the tuple has the `None` slot; it is never tested against the class
+  if (allowNone && valueIsNone) || (!valueIsNone && isInst) then .value else .error .traitError
 
 /-- The validator an `Instance` / `Supports` / `AdaptsTo` trait runs on assignment:
 `init_fast_validate` picks `validate_trait_instance` for mode 0 and
